@@ -1342,6 +1342,57 @@ def e2e_check(ctx, case, results, answers):
             break
 
 
+def run_grid_general(ctx, with_model=True):
+    """general stream of e2e/grid: decimal intervals and odd node counts (strides not dyadic):
+    the real nodes agree with the exact rational nodes of the model / the specification within a
+    few ulp of the interval scale"""
+    import odl
+    rng = ctx.rng
+    cases = []
+    for _ in range(12 if ctx.quick else 80):
+        lo = rng.choice([0.0, -1.0, 0.1, -0.3, 2.5, 1e3])
+        L = rng.choice([1.0, 0.7, 3.0, 0.1, 10.0, 2.0 / 3.0])
+        n = rng.choice([1, 2, 3, 5, 6, 7, 10, 33])
+        bd = rng.choice([None, (1, 1), (1, 0), (0, 1), (0, 0)])
+        if n == 1:
+            bd = None
+        cases.append((lo, lo + L, n, bd))
+    lines = []
+    for lo, hi, n, bd in cases:
+        lines.append('grid lo={} hi={} n={}{}'.format(fs(Fr(lo)), fs(Fr(hi)), n,
+                                                      '' if bd is None else ' bl={} br={}'.format(*bd)))
+    outs = core.run_driver('C15', lines) if with_model else None
+    for k, (lo, hi, n, bd) in enumerate(cases):
+        key = 'e2e grid general uniform_discr({}, {}, {}{}) :: '.format(
+            lo, hi, n, '' if bd is None else ', nodes_on_bdry={}'.format(bd))
+        rc = dict(kind='grid-general')
+        ctx.hit('e2e/grid/general')
+        ctx.case(('e2e-grid-general', n, bd), None)
+        try:
+            kw = {} if bd is None else {'nodes_on_bdry': [(bool(bd[0]), bool(bd[1]))]}
+            real = [Fr(float(x)) for x in odl.uniform_discr(lo, hi, n, **kw).grid.coord_vectors[0]]
+        except Exception as e:  # noqa
+            ctx.violation(key + 'raised', '{}: {}'.format(type(e).__name__, str(e)[:100]), rc)
+            continue
+        spec = dict(kind='uniform', min=[frs(Fr(lo))], max=[frs(Fr(hi))], shape=[n])
+        if bd is not None:
+            spec['bdry'] = [list(bd)]
+        exp = spec_coords(spec)[0]
+        tol = Fr(8, 2 ** 52) * max(abs(Fr(lo)), abs(Fr(hi)), Fr(1))
+        if len(real) != n or any(abs(a - b) > tol for a, b in zip(real, exp)):
+            ctx.violation(key + 'nodes are not the equispaced nodes of the specification (8 ulp)',
+                          'nodes {} expected {}'.format([float(x) for x in real], [float(x) for x in exp]), rc)
+        if outs is not None:
+            ans = outs[k]
+            ok = ans.startswith('ok c=')
+            if ok:
+                mt = [core.pfrac(t) for t in ans[len('ok c='):].split(',')]
+                ok = len(mt) == len(real) and all(abs(a - b) <= tol for a, b in zip(real, mt))
+            if not ok:
+                ctx.disagree(dict(rc, lo=lo, hi=hi, n=n, bdry=bd), [float(x) for x in real], ans,
+                             stream='e2e/grid-general')
+
+
 def theorem_op_cases(rng, reps):
     """operator cases that meet the hypotheses of the round-4 theorems: resampling onto the same
     grid, linear resampling of affine data onto a coarser uniform grid, zero displacement,
@@ -2576,7 +2627,7 @@ MODEL_BRANCHES = ['axis/{}/{}'.format(s_, b) for s_ in 'ln' for b in ('lo', 'hi'
     ['sample-tie/{}/{}'.format(k, c) for k in ('oopOnly', 'dual', 'ipOnly')
      for c in ('element', 'mesh', 'mesh+out', 'array', 'array+out', 'array-flat', 'array-flat+out', 'point')] + \
     ['input/accepted', 'input/rejected'] + \
-    ['e2e/grid/' + b for b in ('n=1', 'n=2', 'n>2', 'bdry-tt', 'bdry-tf', 'bdry-ft', 'bdry-ff')] + \
+    ['e2e/grid/' + b for b in ('n=1', 'n=2', 'n>2', 'bdry-tt', 'bdry-tf', 'bdry-ft', 'bdry-ff', 'general')] + \
     ['e2e/resample/' + b for b in ('dom-uniform', 'dom-nonuniform', 'axis-same', 'axis-coarsen', 'axis-refine',
                                    'all-inside-hull', 'point-outside-hull')] + \
     ['e2e/deform/' + b for b in ('zero-disp', 'moved', 'all-inside-hull', 'point-outside-hull')] + \
@@ -2608,6 +2659,7 @@ def regenerate(ctx):
 def run(ctx):
     run_interp(ctx, interp_configs(ctx))
     run_ops(ctx, op_configs(ctx))
+    run_grid_general(ctx)
     run_dtype_table(ctx)
     run_dispatch(ctx)
     run_input_classes(ctx)
@@ -2631,6 +2683,7 @@ def search(ctx, broken):
             check_interp_case(ctx, case, results, {})
             affine_check(ctx, case)
         run_ops(ctx, op_configs(ctx), with_model=False)
+        run_grid_general(ctx, with_model=False)
         run_dtype_table(ctx, with_model=False)
         run_dispatch(ctx, with_model=False)
         run_input_classes(ctx, with_model=False)
@@ -2656,6 +2709,8 @@ def replay(ctx, case):
             affine_check(ctx, c)
     elif kind == 'sampling':
         run_sampling_case(ctx, c)
+    elif kind == 'grid-general':
+        run_grid_general(ctx, with_model=False)
     elif kind == 'dtype':
         run_dtype_table(ctx, with_model=False)
     elif kind == 'vector':
